@@ -7,11 +7,11 @@ from ..lin import Form, Lin
 
 MANIFEST = {
     'technique': 'symbolic linear forms of Reaction.dH, Stream.Hf/Hnet and adiabatic_reaction; extraction of the latent-heat decision table and check that it is a '
-            'potential difference; statement-order rule; the ordering rule is applied to every normal path',
+            'potential difference; statement-order rule; the ordering rule is applied to every normal path; conversion read through the X property',
     'text': 'Decides for every input: dH is X*sum((Hf+latent)*S) (divided by MW on a weight basis); the 6-entry latent-heat table over (reference phase, reaction '
             'phase) equals h[phase]-h[ref] for h={s:0,l:Hfus,g:Hfus+Hvap}; adiabatic_reaction reads Hnet+Q before reacting and Hf after and assigns H = Hnet+Q-Hf '
-            'on EVERY normal path (no exit after the reaction without the assignment); Hnet getter and setter are inverse and Hf is sum(Hf_i*n_i). Numerical '
-            'agreement and model ranges are not decided.',
+            'on EVERY normal path (no exit after the reaction without the assignment); Hnet getter and setter are inverse and Hf is sum(Hf_i*n_i). dH reads the '
+            "conversion through self.X (for an item of a reaction set self._X is the whole set's array). Numerical agreement and model ranges are not decided.",
 }
 
 RX = 'thermosteam/reaction/_reaction.py'
